@@ -145,6 +145,9 @@ def _chunk(payload):
             case = {'script': script, 'kill_at': i, 'contenders': ncont}
             mark(case)
             out.evaluations += 1
+            if ncont == 0:
+                # a lock file nobody has used yet: the crash may hit its very first creation
+                path = os.path.join(work, f'crash-{i}.lock')
             p, labels = child(work, path, i, script, f'{script}-{i}')
             if p.returncode != -signal.SIGKILL:
                 # the script finished before the i-th line event (timing-dependent paths): not a crash case
